@@ -48,6 +48,19 @@ static inline std::string StripSubscriber(const std::string & dump, uint32_t id)
    return out;
 }
 
+// removes the tree line of one node (" '<path>' d=...") from a dump text
+static inline std::string DropNodeLine(const std::string & dump, const std::string & path)
+{
+   const std::string head = " " + l1::Quote(path) + " d=";
+   std::string out; size_t pos = 0;
+   while (pos < dump.size()) {
+      size_t e = dump.find('\n', pos); if (e == std::string::npos) e = dump.size();
+      if (dump.compare(pos, head.size(), head) != 0) { out.append(dump, pos, e - pos); if (e < dump.size()) out += '\n'; }
+      pos = e + 1;
+   }
+   return out;
+}
+
 static inline std::string FirstDiff(const std::string & a, const std::string & b)
 {
    size_t pa = 0, pb = 0; int line = 1;
@@ -61,14 +74,14 @@ static inline std::string FirstDiff(const std::string & a, const std::string & b
    return "(no difference)";
 }
 
-// replaces every token I<digits> that is delimited by / ' " : , or the string ends by I#   (generated names, F15)
+// replaces every token I<digits> that starts after one of / ' " : , [ and ends before one of / ' " : , ] = space or the end by I#   (generated names, F15)
 static inline std::string ScrubGen(const std::string & s)
 {
    std::string o; o.reserve(s.size());
    for (size_t i = 0; i < s.size(); i++) {
       if (s[i] == 'I' && i + 1 < s.size() && isdigit((unsigned char)s[i + 1]) && (i == 0 || strchr("/'\":,[", s[i - 1]))) {
          size_t j = i + 1; while (j < s.size() && isdigit((unsigned char)s[j])) j++;
-         if (j == s.size() || strchr("/'\":,]", s[j])) { o += "I#"; i = j - 1; continue; }
+         if (j == s.size() || strchr("/'\":,]= ", s[j])) { o += "I#"; i = j - 1; continue; }
       }
       o += s[i];
    }
